@@ -441,6 +441,32 @@ func (ld *Loaded) buildNative(pkgDir string) (string, error) {
 			ov["Replace"][virt] = real
 		}
 	}
+	// the package's own tests are not needed for the replay (and some import generated
+	// packages that are empty in this tree): blank them out in the overlay
+	if tests, _ := filepath.Glob(filepath.Join(repoDir, pkgDir, "*_test.go")); len(tests) > 0 {
+		for i, tf := range tests {
+			if _, ours := ov["Replace"][tf]; ours {
+				continue
+			}
+			src, err := os.ReadFile(tf)
+			if err != nil {
+				continue
+			}
+			clause := ""
+			for _, l := range strings.Split(string(src), "\n") {
+				if strings.HasPrefix(l, "package ") {
+					clause = l
+					break
+				}
+			}
+			if clause == "" {
+				continue
+			}
+			stub := filepath.Join(ld.tmpDir, fmt.Sprintf("%s_blank%d.go", strings.ReplaceAll(pkgDir, "/", "_"), i))
+			os.WriteFile(stub, []byte(clause+"\n"), 0644)
+			ov["Replace"][tf] = stub
+		}
+	}
 	ovPath := filepath.Join(ld.tmpDir, strings.ReplaceAll(pkgDir, "/", "_")+"_overlay.json")
 	data, _ := json.Marshal(ov)
 	os.WriteFile(ovPath, data, 0644)
